@@ -196,6 +196,8 @@ class GeoInterp:
             return ('O', em[1])
         if em:
             return ('E', em[0], em[1])
+        if isinstance(e, ast.Dict):
+            return ('D', e, module)      # a dict display used as a value (a nested table)
         if isinstance(e, (ast.Tuple, ast.List, ast.Set)):
             return ('U', tuple(ev(x) for x in e.elts))
         if isinstance(e, (ast.ListComp, ast.GeneratorExp)) and len(e.generators) == 1 \
